@@ -11,6 +11,15 @@ for it.
 
 `HInv K ext exg`: `ext` exempts one task from `h1`, `exg` one group from `b1` (for the few
 intermediate states of a transition in which they do not hold).
+
+STATUS: the invariant, the inert relation `HSame`, the closure lemmas for every elementary update
+(`HostInv2.lean`) and `hinv_aexit_disabled` (a marked group cannot start `__aexit__` again) are
+proved.  NOT yet done: the pass over `step` (`hinv_step`, `hinv_reach`; same skeleton as
+`FutInv4/5`, threading `WFR` with the `WFR.*` lemmas of `WF7`).  For that pass two more fields are
+needed so that `hinv_exitPre` can be applied to the exits of library scopes:
+`d1 : g < nGroups → hscope u ≠ some (groups g).scope` and
+`d2 : lib t ∈ {shChk s, aexitChk _ s _, aexitWait _ s _, startJoin _ _ s _} → hscope t ≠ some s`
+(both are allocation facts: the scope was allocated after the handle scope, `WF.hscope_lt`).
 -/
 import AnyioModel.Kernel.FutInv5
 
